@@ -9,8 +9,10 @@
     `gauss_with_pivot`: the same computation (it calls the model's `maxAbsInColumn`, `partialPivot`,
     `elimRow`) which additionally RECORDS the multipliers `elem` (row-permuted along with the later
     exchanges), the row permutation, and whether every pivot search returned a row on or below the
-    diagonal (`reg`).  `gaussT_fst`: forgetting the trace gives `gaussWithPivot` (any scalar type).
-  * (S) `partialPivot_struct`, `elimRow_struct`, `elimLoopT_struct`, `forM'_congr`,
+    diagonal (`reg`; since the repair of `max_abs_in_column` — it now starts from `max_index =
+    start_row` — this flag is always `true`: `maxAbsInColumn_ge`, `gaussT_regular`).
+    `gaussT_fst`: forgetting the trace gives `gaussWithPivot` (any scalar type).
+  * (S) `partialPivot_struct`, `elimRow_struct`, `elimLoopT_struct`, `gaussStepT_struct`, `forM'_congr`,
     `backsolve_congr_upper` (back substitution never reads below the diagonal).
   * (F) `maxAbsInColumn_fl`, `aug`, `gW`, `gElimLoop_fl`, `GInvF`, `gaussStepT_fl`, `gaussT_fl`: the
     invariant of the elimination — the row relation `LURowF` of LURounding.lean for the AUGMENTED
@@ -34,7 +36,8 @@ variable {K : Type} [Add K] [Sub K] [Mul K] [Neg K] [Zero K] [One K] [BEq K] [Sc
 /-- what the instrumented elimination records: the multipliers (`mult r c`, `c < r`: the multiplier
 that eliminated column `c` of what is now row `r`), the row permutation (`perm r` is the row of the
 input that is now row `r`) and `reg`: every pivot search so far returned a row on or below the
-diagonal (`false` after the `max_index = 0` fallback to a row above the diagonal) -/
+diagonal (always `true` for the repaired pivot search, `gaussT_regular`; the original search started
+from `max_index = 0` and could return row `0` above the diagonal) -/
 structure GTrace (K : Type) where
   mult : Nat → Nat → K
   perm : Nat → Nat
@@ -415,7 +418,738 @@ theorem backsolve_congr_upper {m m' : Mat K} (hr : m'.rows = m.rows)
   · have hu : usub m.rows 1 = .error .arith := by simp [usub, hn]
     simp only [hu, bind, Except.bind]
 
+/-- (S) a returned value of `solve_basic` comes from a successful elimination — which is the
+projection of a successful instrumented elimination — followed by a successful back substitution -/
+theorem solveBasic_run {n : Nat} {A : Mat K} {b x : Array K} (hA : WFn A n) (hb : b.size = n)
+    (h : solveBasic A b = .ok x) :
+    ∃ (m' : Mat K) (y : Array K) (tr : GTrace K), gaussT A b = .ok ((m', y), tr) ∧
+      gaussWithPivot A b = .ok (m', y) ∧ backsolve m' y = .ok x := by
+  unfold solveBasic at h
+  have h1 : ¬ A.rows ≠ b.size := by rw [hA.2.1, hb]; simp
+  have h2 : ¬ A.rows ≠ A.cols := by rw [hA.2.1, hA.2.2]; simp
+  simp only [h1, h2, if_false, bind, Except.bind] at h
+  cases hg : gaussWithPivot A b with
+  | error e => rw [hg] at h; simp at h
+  | ok s =>
+    obtain ⟨m', y⟩ := s
+    rw [hg] at h
+    simp only at h
+    obtain ⟨tr, htr⟩ := gaussT_of_gauss hg
+    exact ⟨m', y, tr, htr, rfl, h⟩
+
+/-- (S) shapes are kept by an instrumented step, and the flag stays `true` exactly when it was and
+the pivot search returned a row on or below the diagonal -/
+theorem gaussStepT_struct {n k : Nat} {s s' : (Mat K × Array K) × GTrace K} (hm : WFn s.1.1 n)
+    (hx : s.1.2.size = n) (hk : k < n) (h : gaussStepT s k = .ok s') :
+    WFn s'.1.1 n ∧ s'.1.2.size = n ∧
+      ∃ p, maxAbsInColumn s.1.1 k k = .ok p ∧ s'.2.reg = (s.2.reg && decide (k ≤ p)) := by
+  unfold gaussStepT at h
+  cases hp : partialPivotT s k with
+  | error e => simp [hp, bind, Except.bind] at h
+  | ok s1 =>
+    simp only [hp, bind, Except.bind] at h
+    unfold partialPivotT at hp
+    cases hp0 : maxAbsInColumn s.1.1 k k with
+    | error e => simp [hp0, bind, Except.bind] at hp
+    | ok p =>
+      cases hpp : partialPivot s.1.1 s.1.2 k with
+      | error e => simp [hp0, hpp, bind, Except.bind] at hp
+      | ok mx1 =>
+        simp only [hp0, hpp, bind, Except.bind, pure, Except.pure] at hp
+        injection hp with hp
+        subst hp
+        obtain ⟨m1, x1⟩ := mx1
+        obtain ⟨hpn, hw1, hsz1, _, _⟩ := partialPivot_struct hm hx hk hp0 hpp
+        simp only [hw1.2.1] at h
+        obtain ⟨hw2, hsz2, _, hreg2⟩ := elimLoopT_struct (s := ((m1, x1), _)) hw1 hsz1 hk h
+        exact ⟨hw2, hsz2, p, rfl, hreg2⟩
+
+/-- (S) the pivot search never returns a row above the one it starts from -/
+theorem maxAbsInColumn_ge {m : Mat K} {col start p : Nat}
+    (h : maxAbsInColumn m col start = .ok p) : start ≤ p := by
+  unfold maxAbsInColumn at h
+  simp only [bind, Except.bind] at h
+  split at h
+  · simp at h
+  · rename_i s hs
+    simp only [pure, Except.pure] at h
+    by_cases hle : start ≤ m.rows
+    · have := forM'_ok_inv (fun (i : Nat) (s : Nat × K) => start ≤ s.1) start m.rows
+        ((start : Nat), (0 : K)) s _ hle (Nat.le_refl _) (by
+          intro i s s1 hi1 hi2 hP hf
+          obtain ⟨idx, mx⟩ := s
+          simp only [bind, Except.bind] at hf
+          cases hg : m.get i col with
+          | error e => rw [hg] at hf; simp at hf
+          | ok v =>
+            rw [hg] at hf
+            simp only [pure, Except.pure] at hf
+            split at hf
+            · injection hf with hf; subst hf; exact hi1
+            · injection hf with hf; subst hf; exact hP) hs
+      injection h with h
+      subst h
+      obtain ⟨a, b⟩ := s
+      exact this
+    · rw [forM'_empty _ _ _ _ (by omega)] at hs
+      injection hs with hs
+      subst hs
+      injection h with h
+      exact h.le
+
+/-- (S) **every run is regular**: the pivot search starts at the diagonal row, so the recorded flag
+is `true` whenever the instrumented elimination returns -/
+theorem gaussT_regular {n : Nat} {A : Mat K} {b : Array K} (hA : WFn A n) (hb : b.size = n)
+    {s : (Mat K × Array K) × GTrace K} (h : gaussT A b = .ok s) : s.2.reg = true := by
+  unfold gaussT at h
+  rw [hA.2.1] at h
+  by_cases hn : 1 ≤ n
+  · have hus : usub n 1 = .ok (n - 1) := by simp [usub, hn]
+    simp only [hus, bind, Except.bind] at h
+    have key := forM'_ok_inv
+      (fun k (u : (Mat K × Array K) × GTrace K) => WFn u.1.1 n ∧ u.1.2.size = n ∧ u.2.reg = true)
+      0 (n - 1) _ s gaussStepT (Nat.zero_le _) ⟨hA, hb, rfl⟩ ?_ h
+    · exact key.2.2
+    · intro k u u1 _ hk ⟨hw, hsz, hr⟩ hf
+      obtain ⟨hw1, hsz1, p, hp, hreg⟩ := gaussStepT_struct hw hsz (by omega) hf
+      refine ⟨hw1, hsz1, ?_⟩
+      have := maxAbsInColumn_ge hp
+      rw [hreg, hr]
+      simp [this]
+  · have hus : usub n 1 = .error .arith := by simp [usub, hn]
+    simp [hus, bind, Except.bind] at h
+
 end Structural
+
+/-! ### the elimination in `Fl M` -/
+
+section GaussFl
+variable {M : FlModel}
+
+/-- pivot search of `solve_basic` in `Fl M` (comparisons and `mag` are exact; the search starts from
+`max_index = start_row`): the returned row `p` satisfies `k ≤ p < n`, its entry dominates the column
+from the diagonal down, and if that whole sub-column is exactly zero the search returns `p = k` -/
+theorem maxAbsInColumn_fl {m : Mat (Fl M)} {n k p : Nat} (hm : WFn m n) (hk : k < n)
+    (h : maxAbsInColumn m k k = .ok p) :
+    p < n ∧ k ≤ p ∧
+      (∀ i, k ≤ i → i < n → |(ent m i k).val| ≤ |(ent m p k).val|) ∧
+      ((∀ i, k ≤ i → i < n → (ent m i k).val = 0) → p = k) := by
+  unfold maxAbsInColumn at h
+  rw [hm.2.1] at h
+  simp only [bind, Except.bind] at h
+  split at h
+  · simp at h
+  · rename_i s hs
+    simp only [pure, Except.pure] at h
+    have key := forM'_ok_inv
+      (fun t (s : Nat × Fl M) =>
+        ((s.1 = k ∧ s.2.val = 0) ∨
+          (k ≤ s.1 ∧ s.1 < n ∧ s.2.val = |(ent m s.1 k).val| ∧ 0 < s.2.val)) ∧
+        ∀ i, k ≤ i → i < t → |(ent m i k).val| ≤ s.2.val)
+      k n ((k : Nat), (0 : Fl M)) s _ (by omega) ?init ?step hs
+    case init =>
+      exact ⟨Or.inl ⟨rfl, rfl⟩, by intro i h1 h2; omega⟩
+    case step =>
+      intro t s s1 ht1 ht2 ⟨h1, h2⟩ hf
+      obtain ⟨idx, mx⟩ := s
+      simp only [hm.get ht2 hk, bind, Except.bind, pure, Except.pure] at hf
+      have hmx0 : 0 ≤ mx.val := by
+        rcases h1 with ⟨_, h0⟩ | ⟨_, _, _, h0⟩
+        · exact h0.ge
+        · exact h0.le
+      by_cases hlt : mx.val < |(ent m t k).val|
+      · have hl : ScalarExt.lt mx (ScalarExt.mag (ent m t k)) = true := by
+          rw [Fl.lt_iff, Fl.mag_val]; exact hlt
+        simp only [hl, if_true] at hf
+        injection hf with hf
+        subst hf
+        refine ⟨Or.inr ⟨ht1, ht2, Fl.mag_val _, ?_⟩, ?_⟩
+        · show 0 < (ScalarExt.mag (ent m t k)).val
+          rw [Fl.mag_val]; exact lt_of_le_of_lt hmx0 hlt
+        intro i hi1 hi2
+        rw [Fl.mag_val]
+        by_cases hit : i = t
+        · subst hit; exact le_refl _
+        · exact le_trans (h2 i hi1 (by omega)) (le_of_lt hlt)
+      · have hl : ¬ ScalarExt.lt mx (ScalarExt.mag (ent m t k)) = true := by
+          rw [Fl.lt_iff, Fl.mag_val]; exact hlt
+        simp only [hl, if_false] at hf
+        injection hf with hf
+        subst hf
+        refine ⟨h1, ?_⟩
+        intro i hi1 hi2
+        by_cases hit : i = t
+        · subst hit; exact not_lt.1 hlt
+        · exact h2 i hi1 (by omega)
+    injection h with h
+    obtain ⟨idx, mx⟩ := s
+    simp only at h
+    subst h
+    obtain ⟨hcase, hdom⟩ := key
+    simp only at hcase hdom
+    refine ⟨?_, ?_, ?_, ?_⟩
+    · rcases hcase with ⟨h0, _⟩ | ⟨_, h1, _⟩
+      · omega
+      · exact h1
+    · rcases hcase with ⟨h0, _⟩ | ⟨h1, _⟩
+      · omega
+      · exact h1
+    · intro i hi1 hi2
+      rcases hcase with ⟨_, h0⟩ | ⟨_, _, h1, _⟩
+      · have := hdom i hi1 hi2
+        rw [h0] at this
+        exact this.trans (abs_nonneg _)
+      · rw [← h1]; exact hdom i hi1 hi2
+    · intro hz
+      rcases hcase with ⟨h0, _⟩ | ⟨h1, h2, h3, h4⟩
+      · exact h0
+      · rw [h3, hz idx h1 h2, abs_zero] at h4
+        exact absurd h4 (lt_irrefl _)
+
+/-- the augmented matrix `[m | x]`: column `n` is the right-hand side -/
+def aug (n : Nat) (m : Mat (Fl M)) (x : Array (Fl M)) : Nat → Nat → Fl M :=
+  fun r c => if c < n then ent m r c else vf x r
+
+/-- the working array of the analysis: the recorded multipliers `ℓ` in the first `ρ r` columns of
+row `r` (where `solve_basic` holds rounded residues), the augmented matrix elsewhere -/
+def gW (n : Nat) (ρ : Nat → Nat) (ℓ : Nat → Nat → Fl M) (m : Mat (Fl M)) (x : Array (Fl M)) :
+    Nat → Nat → Fl M :=
+  fun r c => if c < ρ r then ℓ r c else aug n m x r c
+
+/-- number of finished elimination steps of row `r` while the row loop of step `k` is at row `t` -/
+def rhoT (k t : Nat) : Nat → Nat := fun r => if k < r ∧ r < t then k + 1 else min r k
+
+/-- the row loop of one elimination step in `Fl M` (instrumented): the perturbed row relation of
+the augmented matrix advances by one column, the new multipliers are `≤ 1 + u` in magnitude -/
+theorem gElimLoop_fl (hu : M.u < 1) {n k : Nat} (B : Nat → Nat → ℝ)
+    {s s' : (Mat (Fl M) × Array (Fl M)) × GTrace (Fl M)}
+    (hm : WFn s.1.1 n) (hx : s.1.2.size = n) (hk : k < n)
+    (hrow : ∀ r, r < n →
+      LURowF (n + 1) (B r) (gW n (fun r => min r k) s.2.mult s.1.1 s.1.2) r (min r k))
+    (hmax : ∀ i, k ≤ i → i < n → |(ent s.1.1 i k).val| ≤ |(ent s.1.1 k k).val|)
+    (hmult : ∀ r c, r < n → c < min r k → |(s.2.mult r c).val| ≤ 1 + M.u)
+    (h : forM' (k + 1) n s (elimRowT k) = .ok s') :
+    (∀ r, r < n → LURowF (n + 1) (B r)
+        (gW n (fun r => min r (k + 1)) s'.2.mult s'.1.1 s'.1.2) r (min r (k + 1))) ∧
+    (∀ r c, r < n → c < min r (k + 1) → |(s'.2.mult r c).val| ≤ 1 + M.u) := by
+  have key := forM'_ok_inv
+    (fun t (u : (Mat (Fl M) × Array (Fl M)) × GTrace (Fl M)) => WFn u.1.1 n ∧ u.1.2.size = n ∧
+      (∀ r, r < n → LURowF (n + 1) (B r) (gW n (rhoT k t) u.2.mult u.1.1 u.1.2) r (rhoT k t r)) ∧
+      (∀ r, r < n → (r ≤ k ∨ t ≤ r) →
+        (∀ c, c < n → ent u.1.1 r c = ent s.1.1 r c) ∧ vf u.1.2 r = vf s.1.2 r) ∧
+      (∀ r c, r < n → c < rhoT k t r → |(u.2.mult r c).val| ≤ 1 + M.u))
+    (k + 1) n s s' (elimRowT k) (by omega) ?init ?step h
+  case init =>
+    have e : rhoT k (k + 1) = fun r => min r k := by
+      funext r
+      have : ¬ (k < r ∧ r < k + 1) := by omega
+      simp only [rhoT, this, if_false]
+    refine ⟨hm, hx, ?_, fun _ _ _ => ⟨fun _ _ => rfl, rfl⟩, ?_⟩
+    · rw [e]; exact hrow
+    · rw [e]; exact hmult
+  case step =>
+    intro j u u1 hj1 hj2 ⟨hw, hsz, hr, hun, hmu⟩ hf
+    obtain ⟨q, hq, he, hml, _, _⟩ := elimRowT_ok hw hk hj2 hf
+    obtain ⟨⟨mu, xu⟩, tu⟩ := u
+    obtain ⟨⟨m1, x1⟩, t1⟩ := u1
+    simp only at hw hsz hr hun hmu hq he hml
+    obtain ⟨q', hq', hw1, hsz1, hent, hvf⟩ := elimRow_struct hw hsz hk hj2 (by omega) he
+    rw [hq] at hq'
+    injection hq' with hq'
+    subst hq'
+    obtain ⟨hpiv, hqe⟩ := Fl.divM_ok hq
+    -- the values of `rhoT` that matter
+    have r1 : rhoT k (j + 1) j = k + 1 := by
+      have : k < j ∧ j < j + 1 := by omega
+      simp only [rhoT, this, and_self, if_true]
+    have r2 : rhoT k j j = k := by
+      have : ¬ (k < j ∧ j < j) := by omega
+      simp only [rhoT, this, if_false]; omega
+    have r3 : ∀ t, t ≤ k → ∀ T, rhoT k T t = min t k := by
+      intro t ht T
+      have : ¬ (k < t ∧ t < T) := by omega
+      simp only [rhoT, this, if_false]
+    have r4 : ∀ r, r ≠ j → rhoT k (j + 1) r = rhoT k j r := by
+      intro r hrj
+      have e1 : (k < r ∧ r < j + 1) = (k < r ∧ r < j) := by apply propext; omega
+      simp only [rhoT, e1]
+    have r5 : ∀ r, rhoT k j r ≤ k + 1 := by
+      intro r; simp only [rhoT]; split <;> omega
+    have r6 : ∀ r, k < r → r < j → rhoT k j r = k + 1 := by
+      intro r h1 h2
+      have : k < r ∧ r < j := ⟨h1, h2⟩
+      simp only [rhoT, this, and_self, if_true]
+    -- rows other than `j` are untouched
+    have hoth : ∀ r c, r ≠ j → c < n + 1 →
+        gW n (rhoT k (j + 1)) t1.mult m1 x1 r c = gW n (rhoT k j) tu.mult mu xu r c := by
+      intro r c hrj hc
+      simp only [gW, aug, r4 r hrj, hml]
+      have c1 : ¬ (r = j ∧ c = k) := fun hh => hrj hh.1
+      simp only [c1, if_false]
+      by_cases hcn : c < n
+      · by_cases hrn : r < n
+        · rw [hent r c hrn hcn]
+          have c2 : ¬ (r = j ∧ k ≤ c) := fun hh => hrj hh.1
+          simp only [c2, if_false, hcn, if_true]
+        · -- outside the matrix both entry functions read the same (irrelevant) buffer position
+          simp only [hcn, if_true]
+          have e1 : ent m1 r c = 0 := by
+            unfold ent
+            have : m1.data.size ≤ r * m1.cols + c := by
+              rw [hw1.1, hw1.2.1, hw1.2.2]
+              have : n * n ≤ r * n := Nat.mul_le_mul_right n (by omega)
+              omega
+            simp [this]
+          have e2 : ent mu r c = 0 := by
+            unfold ent
+            have : mu.data.size ≤ r * mu.cols + c := by
+              rw [hw.1, hw.2.1, hw.2.2]
+              have : n * n ≤ r * n := Nat.mul_le_mul_right n (by omega)
+              omega
+            simp [this]
+          rw [e1, e2]
+      · simp only [hcn, if_false]
+        rw [hvf r]
+        simp only [hrj, if_false]
+    refine ⟨hw1, hsz1, ?_, ?_, ?_⟩
+    · intro r hrn
+      by_cases hrj : r = j
+      · subst hrj
+        rw [r1]
+        have h0 := hr r hrn
+        rw [r2] at h0
+        refine LURowF.elim hu (by omega) (by omega) q ?_ ?_ ?_ ?_ h0
+        · intro c hc
+          simp only [gW, aug, r1, r2, r3 k (Nat.le_refl _), Nat.min_self, hml]
+          by_cases hck : c = k
+          · subst hck
+            have c1 : c < c + 1 := by omega
+            simp only [c1, if_true, and_self]
+          · by_cases hlt : c < k
+            · have c1 : c < k + 1 := by omega
+              have c2 : ¬ k < c := by omega
+              simp only [c1, hlt, c2, hck, and_false, if_true, if_false]
+            · have c1 : ¬ c < k + 1 := by omega
+              have c2 : k < c := by omega
+              simp only [c1, c2, hlt, hck, if_true, if_false]
+              by_cases hcn : c < n
+              · simp only [hcn, if_true]
+                rw [hent r c hrn hcn]
+                have c3 : r = r ∧ k ≤ c := ⟨rfl, by omega⟩
+                simp only [c3, and_self, if_true]
+              · simp only [hcn, if_false]
+                rw [hvf r]
+                simp only [if_true]
+        · intro t c ht hc
+          exact hoth t c (by omega) hc
+        · show (gW n (rhoT k r) tu.mult mu xu k k).val ≠ 0
+          simp only [gW, aug, r3 k (Nat.le_refl _), Nat.min_self, Nat.lt_irrefl, if_false, hk,
+            if_true]
+          exact hpiv
+        · show q = gW n (rhoT k r) tu.mult mu xu r k / gW n (rhoT k r) tu.mult mu xu k k
+          simp only [gW, aug, r2, r3 k (Nat.le_refl _), Nat.min_self, Nat.lt_irrefl, if_false, hk,
+            if_true]
+          exact hqe
+      · rw [r4 r hrj]
+        refine LURowF.transfer ?_ ?_ ?_ (hr r hrn)
+        · have := r5 r; omega
+        · intro c hc
+          exact hoth r c hrj hc
+        · intro t c ht hc
+          refine hoth t c ?_ hc
+          by_cases h1 : k < r ∧ r < j
+          · rw [r6 r h1.1 h1.2] at ht; omega
+          · have : rhoT k j r = min r k := by simp only [rhoT, h1, if_false]
+            rw [this] at ht; omega
+    · intro r hrn hcase
+      have hrj : r ≠ j := by omega
+      obtain ⟨g1, g2⟩ := hun r hrn (by omega)
+      refine ⟨?_, ?_⟩
+      · intro c hc
+        rw [hent r c hrn hc]
+        have c2 : ¬ (r = j ∧ k ≤ c) := fun hh => hrj hh.1
+        simp only [c2, if_false]
+        exact g1 c hc
+      · rw [hvf r]
+        simp only [hrj, if_false]
+        exact g2
+    · intro r c hrn hc
+      rw [hml]
+      by_cases hrj : r = j
+      · subst hrj
+        rw [r1] at hc
+        by_cases hck : c = k
+        · subst hck
+          simp only [and_self, if_true]
+          rw [hqe]
+          have e1 := (hun r hrn (Or.inr (Nat.le_refl _))).1 c hk
+          have e2 := (hun c hk (Or.inl (Nat.le_refl _))).1 c hk
+          refine Fl.abs_div_le _ _ hpiv ?_
+          rw [e1, e2]
+          exact hmax r (by omega) hrn
+        · simp only [hck, and_false, if_false]
+          have := hmu r c hrn
+          rw [r2] at this
+          exact this (by omega)
+      · have c1 : ¬ (r = j ∧ c = k) := fun hh => hrj hh.1
+        simp only [c1, if_false]
+        rw [r4 r hrj] at hc
+        exact hmu r c hrn hc
+  obtain ⟨_, _, k3, _, k5⟩ := key
+  have e : rhoT k n = fun r => if r < n then min r (k + 1) else min r k := by
+    funext r
+    simp only [rhoT]
+    by_cases h1 : k < r ∧ r < n
+    · have : min r (k + 1) = k + 1 := by omega
+      simp only [h1, and_self, if_true, this]
+    · simp only [h1, if_false]
+      by_cases h2 : r < n
+      · have : min r (k + 1) = min r k := by omega
+        simp only [h2, if_true, this]
+      · simp only [h2, if_false]
+  have e' : ∀ r, r < n → rhoT k n r = min r (k + 1) := by
+    intro r hr; rw [e]; simp only [hr, if_true]
+  refine ⟨?_, ?_⟩
+  · intro r hr
+    have := k3 r hr
+    rw [e' r hr] at this
+    refine LURowF.transfer (by omega) ?_ ?_ this
+    · intro c hc
+      simp only [gW, e' r hr]
+    · intro t c ht hc
+      have htn : t < n := by omega
+      simp only [gW, e' t htn]
+  · intro r c hr hc
+    have := k5 r c hr
+    rw [e' r hr] at this
+    exact this hc
+
+/-- invariant of the instrumented `gauss_with_pivot` in `Fl M` after `k` steps: shapes, and — the flag
+`reg` being `true`, which it always is (`gaussT_regular`) — `perm` is a permutation, every row of the
+permuted augmented input `[A | b]` satisfies the perturbed row relation with the recorded
+multipliers, and these are bounded by `1 + u` -/
+structure GInvF (n : Nat) (A : Mat (Fl M)) (b : Array (Fl M)) (k : Nat)
+    (s : (Mat (Fl M) × Array (Fl M)) × GTrace (Fl M)) : Prop where
+  wf : WFn s.1.1 n
+  sz : s.1.2.size = n
+  good : s.2.reg = true → ∃ σ : Nat → Nat, PermOK n s.2.perm σ ∧
+    (∀ r, r < n → LURowF (n + 1) (fun c => (aug n A b (s.2.perm r) c).val)
+      (gW n (fun r => min r k) s.2.mult s.1.1 s.1.2) r (min r k)) ∧
+    (∀ r c, r < n → c < min r k → |(s.2.mult r c).val| ≤ 1 + M.u)
+
+theorem gaussStepT_fl (hu : M.u < 1) {n k : Nat} {A : Mat (Fl M)} {b : Array (Fl M)}
+    {s s' : (Mat (Fl M) × Array (Fl M)) × GTrace (Fl M)} (hk : k < n)
+    (hs : GInvF n A b k s) (h : gaussStepT s k = .ok s') : GInvF n A b (k + 1) s' := by
+  unfold gaussStepT at h
+  cases hp : partialPivotT s k with
+  | error e => simp [hp, bind, Except.bind] at h
+  | ok s1 =>
+    simp only [hp, bind, Except.bind] at h
+    unfold partialPivotT at hp
+    cases hp0 : maxAbsInColumn s.1.1 k k with
+    | error e => simp [hp0, bind, Except.bind] at hp
+    | ok p =>
+      cases hpp : partialPivot s.1.1 s.1.2 k with
+      | error e => simp [hp0, hpp, bind, Except.bind] at hp
+      | ok mx1 =>
+        simp only [hp0, hpp, bind, Except.bind, pure, Except.pure] at hp
+        injection hp with hp
+        subst hp
+        obtain ⟨m1, x1⟩ := mx1
+        obtain ⟨hpn, hw1, hsz1, hent, hvf⟩ := partialPivot_struct hs.wf hs.sz hk hp0 hpp
+        simp only [hw1.2.1] at h
+        obtain ⟨hw2, hsz2, hperm2, hreg2⟩ := elimLoopT_struct (s := ((m1, x1), _)) hw1 hsz1 hk h
+        simp only at hperm2 hreg2
+        refine ⟨hw2, hsz2, ?_⟩
+        intro hreg
+        rw [hreg2] at hreg
+        have hreg' : s.2.reg = true ∧ k ≤ p := by
+          simpa using hreg
+        obtain ⟨hreg0, hkp⟩ := hreg'
+        obtain ⟨σ, hperm, hrows, hmult⟩ := hs.good hreg0
+        obtain ⟨_, _, hdom, _⟩ := maxAbsInColumn_fl hs.wf hk hp0
+        have hsw : ∀ r, r < n → swapIdx p k r < n := fun r hr => swapIdx_lt hpn hk hr
+        have hmin : ∀ r, min (swapIdx p k r) k = min r k := by
+          intro r; unfold swapIdx; split_ifs <;> omega
+        have hfix : ∀ t, t < k → swapIdx p k t = t := by
+          intro t ht; unfold swapIdx; split_ifs <;> omega
+        -- the working array after the exchange is the row-permuted working array
+        have hW : ∀ r c, r < n → c < n + 1 →
+            gW n (fun r => min r k) (fun r c => s.2.mult (swapIdx p k r) c) m1 x1 r c
+              = gW n (fun r => min r k) s.2.mult s.1.1 s.1.2 (swapIdx p k r) c := by
+          intro r c hr hc
+          simp only [gW, aug, hmin]
+          by_cases hcn : c < n
+          · simp only [hcn, if_true]
+            rw [hent r c hr hcn]
+          · simp only [hcn, if_false]
+            rw [hvf r]
+        have a1 : ∀ r, r < n → LURowF (n + 1)
+            (fun c => (aug n A b (s.2.perm (swapIdx p k r)) c).val)
+            (gW n (fun r => min r k) (fun r c => s.2.mult (swapIdx p k r) c) m1 x1) r (min r k) := by
+          intro r hr
+          have := hrows _ (hsw r hr)
+          rw [hmin] at this
+          refine LURowF.transfer (by omega) (fun c hc => hW r c hr hc) ?_ this
+          intro t c ht hc
+          have htk : t < k := by omega
+          rw [hW t c (by omega) hc, hfix t htk]
+        have a2 : ∀ i, k ≤ i → i < n → |(ent m1 i k).val| ≤ |(ent m1 k k).val| := by
+          intro i hi1 hi2
+          rw [hent i k hi2 hk, hent k k hk hk]
+          have e1 : swapIdx p k k = p := by unfold swapIdx; split_ifs <;> omega
+          rw [e1]
+          refine hdom _ ?_ (hsw i hi2)
+          unfold swapIdx; split_ifs <;> omega
+        have a3 : ∀ r c, r < n → c < min r k → |(s.2.mult (swapIdx p k r) c).val| ≤ 1 + M.u := by
+          intro r c hr hc
+          exact hmult _ c (hsw r hr) (by rw [hmin]; exact hc)
+        obtain ⟨g1, g2⟩ := gElimLoop_fl hu
+          (fun r c => (aug n A b (s.2.perm (swapIdx p k r)) c).val)
+          (s := ((m1, x1), ⟨fun r c => s.2.mult (swapIdx p k r) c, fun r => s.2.perm (swapIdx p k r),
+            s.2.reg && decide (k ≤ p)⟩)) (s' := s') hw1 hsz1 hk a1 a2 a3 h
+        refine ⟨fun j => swapIdx p k (σ j), ?_, ?_, g2⟩
+        · rw [hperm2]
+          exact hperm.swap hpn hk
+        · intro r hr
+          rw [hperm2]
+          exact g1 r hr
+
+/-- **the instrumented `gauss_with_pivot` in `Fl M`**: whenever it returns, the invariant holds
+with `k = n - 1` -/
+theorem gaussT_fl (hu : M.u < 1) {n : Nat} (hn : 1 ≤ n) {A : Mat (Fl M)} {b : Array (Fl M)}
+    (hA : WFn A n) (hb : b.size = n) {s : (Mat (Fl M) × Array (Fl M)) × GTrace (Fl M)}
+    (h : gaussT A b = .ok s) : GInvF n A b (n - 1) s := by
+  unfold gaussT at h
+  rw [hA.2.1] at h
+  have hus : usub n 1 = .ok (n - 1) := by simp [usub, hn]
+  simp only [hus, bind, Except.bind] at h
+  refine forM'_ok_inv (fun k s => GInvF n A b k s) 0 (n - 1) _ s gaussStepT (Nat.zero_le _)
+    ?init ?step h
+  case init =>
+    refine ⟨hA, hb, fun _ => ⟨fun r => r, PermOK.id n, ?_, ?_⟩⟩
+    · intro r hr
+      have : min r 0 = 0 := by omega
+      rw [this]
+      refine LURowF.init ?_
+      intro c hc
+      simp only [GTrace.init, gW]
+      have : ¬ c < min r 0 := by omega
+      simp only [this, if_false]
+    · intro r c _ hc
+      omega
+  case step =>
+    intro k s s1 _ hk hs hf
+    exact gaussStepT_fl hu (by omega) hs hf
+
+/-! ### from the row relation to `P·[A | b] = L̂·[Û | ŷ]` with perturbation factors -/
+
+/-- the row relation `LURowF N B w r r` written with the unit lower factor `Lfn` of `w` and full
+sums over `k < n` (any `n > r`): `B c = Σ_k l̂_rk · (û_kc · Θ_k)`, `û_kc = 0` below the diagonal -/
+theorem LURowF_full_fn {N n : Nat} {B : Nat → ℝ} {w : Nat → Nat → Fl M} {r : Nat} (hr : r < n)
+    (h : LURowF N B w r r) :
+    ∀ c, c < N → ∃ Θ : Nat → ℝ, (∀ k, M.Th r (Θ k)) ∧
+      B c = ∑ k ∈ Finset.range n, Lfn (fun a b => (w a b).val) r k *
+        ((if c < k then 0 else (w k c).val) * Θ k) := by
+  intro c hc
+  obtain ⟨θ0, θ, h0, hθ, e⟩ := h c hc
+  refine ⟨fun k => if k = r then θ0 else θ k, ?_, ?_⟩
+  · intro k
+    beta_reduce
+    by_cases hk : k = r
+    · rw [if_pos hk]; exact h0
+    · rw [if_neg hk]; exact hθ k
+  · rw [Lsum (fun a b => (w a b).val)
+      (fun k => (if c < k then 0 else (w k c).val) * (if k = r then θ0 else θ k)) hr, e]
+    have e1 : ∑ k ∈ Finset.range r, (w r k).val *
+          ((if c < k then 0 else (w k c).val) * (if k = r then θ0 else θ k))
+        = ∑ t ∈ Finset.range r, (if t ≤ c then (w r t).val * (w t c).val * θ t else 0) := by
+      apply Finset.sum_congr rfl
+      intro k hk
+      have hkr : ¬ k = r := by have := Finset.mem_range.mp hk; omega
+      rw [if_neg hkr]
+      by_cases hkc : k ≤ c
+      · have : ¬ c < k := by omega
+        rw [if_pos hkc, if_neg this]; ring
+      · have : c < k := by omega
+        rw [if_neg hkc, if_pos this]; ring
+    rw [e1, if_pos rfl]
+    by_cases hcr : c < r
+    · rw [if_pos hcr, if_pos hcr]; ring
+    · rw [if_neg hcr, if_neg hcr]; ring
+
+/-- **the computed factorisation of the augmented matrix**: at the end of the
+instrumented elimination, with `L̂ = Lfn` of the recorded multipliers, `Û` the
+upper triangle of the final matrix and `ŷ` the final right-hand side:
+`a_{π r, c} = Σ_k l̂_rk û_kc Θ_k` and `b_{π r} = Σ_k l̂_rk ŷ_k Θ'_k`, every `Θ` a product of at most `r`
+factors `(1+δ)^{±1}`; `π` is a permutation and `|l̂_rc| ≤ 1 + u` -/
+theorem gauss_factor_fl (hu : M.u < 1) {n : Nat} (hn : 1 ≤ n) {A : Mat (Fl M)} {b : Array (Fl M)}
+    (hA : WFn A n) (hb : b.size = n) {m' : Mat (Fl M)} {y : Array (Fl M)} {tr : GTrace (Fl M)}
+    (h : gaussT A b = .ok ((m', y), tr)) :
+    WFn m' n ∧ y.size = n ∧ ∃ σ : Nat → Nat, PermOK n tr.perm σ ∧
+      (∀ r c, r < n → c < r → |(tr.mult r c).val| ≤ 1 + M.u) ∧
+      (∀ r c, r < n → c < n → ∃ Θ : Nat → ℝ, (∀ k, M.Th r (Θ k)) ∧
+        (ent A (tr.perm r) c).val = ∑ k ∈ Finset.range n,
+          Lfn (fun a b => (tr.mult a b).val) r k * (Ufn n (valEnt m') k c * Θ k)) ∧
+      (∀ r, r < n → ∃ Θ : Nat → ℝ, (∀ k, M.Th r (Θ k)) ∧
+        (vf b (tr.perm r)).val = ∑ k ∈ Finset.range n,
+          Lfn (fun a b => (tr.mult a b).val) r k * (Θ k * (vf y k).val)) := by
+  have hinv := gaussT_fl hu hn hA hb h
+  have hreg : tr.reg = true := gaussT_regular hA hb h
+  obtain ⟨σ, hperm, hrows, hmult⟩ := hinv.good hreg
+  simp only at hperm hrows hmult
+  refine ⟨hinv.wf, hinv.sz, σ, hperm, ?_, ?_, ?_⟩
+  · intro r c hr hc
+    exact hmult r c hr (by omega)
+  all_goals
+    have hmin : ∀ r, r < n → min r (n - 1) = r := by intro r hr; omega
+    have hL : ∀ r k, r < n →
+        Lfn (fun a b => (gW n (fun r => min r (n - 1)) tr.mult m' y a b).val) r k
+          = Lfn (fun a b => (tr.mult a b).val) r k := by
+      intro r k hr
+      simp only [Lfn, gW, hmin r hr]
+      by_cases hkr : k < r
+      · simp only [hkr, if_true]
+      · simp only [hkr, if_false]
+  · intro r c hr hc
+    have hrow := hrows r hr
+    rw [hmin r hr] at hrow
+    obtain ⟨Θ, hΘ, e⟩ := LURowF_full_fn (n := n) hr hrow c (by omega)
+    refine ⟨Θ, hΘ, ?_⟩
+    simp only [aug, hc, if_true] at e
+    rw [e]
+    apply Finset.sum_congr rfl
+    intro k hk
+    have hkn := Finset.mem_range.mp hk
+    rw [hL r k hr]
+    congr 2
+    simp only [Ufn, valEnt, gW, aug, hmin k hkn, hc, true_and]
+    by_cases hck : c < k
+    · simp only [hck, if_true]
+    · simp only [hck, if_false, if_true]
+  · intro r hr
+    have hrow := hrows r hr
+    rw [hmin r hr] at hrow
+    obtain ⟨Θ, hΘ, e⟩ := LURowF_full_fn (n := n) hr hrow n (by omega)
+    refine ⟨Θ, hΘ, ?_⟩
+    simp only [aug, Nat.lt_irrefl, if_false] at e
+    rw [e]
+    apply Finset.sum_congr rfl
+    intro k hk
+    have hkn := Finset.mem_range.mp hk
+    rw [hL r k hr]
+    have c1 : ¬ n < k := by omega
+    have c2 : ¬ n < min k (n - 1) := by omega
+    simp only [gW, aug, c1, c2, Nat.lt_irrefl, if_false]
+    ring
+
+/-- **`solve_basic`, backward error, core**: an instrumented elimination followed by a
+successful back substitution.  `ΔA'` is the perturbation of the row-permuted matrix; the
+right-hand side is NOT perturbed (the perturbation factors of the transformed right-hand side play
+the role of the forward substitution `L̂ŷ = Pb` and are moved into `ΔA'`). -/
+theorem solveBasic_backward_core (hu : M.u < 1) {n : Nat} (hn : 1 ≤ n) {A : Mat (Fl M)}
+    {b x : Array (Fl M)} (hA : WFn A n) (hb : b.size = n) {m' : Mat (Fl M)} {y : Array (Fl M)}
+    {tr : GTrace (Fl M)} (hg : gaussT A b = .ok ((m', y), tr))
+    (hbs : backsolve m' y = .ok x) :
+    x.size = n ∧ (∀ i, i < n → (ent m' i i).val ≠ 0) ∧
+    ∃ ΔA : Nat → Nat → ℝ,
+      (∀ r, r < n → ∑ c ∈ Finset.range n,
+        ((ent A (tr.perm r) c).val + ΔA r c) * (vf x c).val = (vf b (tr.perm r)).val) ∧
+      ∀ r c, r < n → c < n → |ΔA r c| ≤ (M.gq (n - 1) + M.gq (2 * n - 1)) *
+        ∑ k ∈ Finset.range n,
+          |Lfn (fun a b => (tr.mult a b).val) r k| * |Ufn n (valEnt m') k c| := by
+  obtain ⟨hwf, hsz, σ, hperm, hmult, hfa, hfb⟩ := gauss_factor_fl hu hn hA hb hg
+  obtain ⟨hxs, mu, hmu, hU⟩ := backsolve_backward_ent hu hwf hsz hn hbs
+  refine ⟨hxs, fun i hi => (hU i hi).1, ?_⟩
+  have hΘ' : ∀ r c, ∃ Θ : Nat → ℝ, r < n → c < n → (∀ k, M.Th r (Θ k)) ∧
+      (ent A (tr.perm r) c).val = ∑ k ∈ Finset.range n,
+        Lfn (fun a b => (tr.mult a b).val) r k * (Ufn n (valEnt m') k c * Θ k) := by
+    intro r c
+    by_cases hrc : r < n ∧ c < n
+    · obtain ⟨Θ, h1, h2⟩ := hfa r c hrc.1 hrc.2
+      exact ⟨Θ, fun _ _ => ⟨h1, h2⟩⟩
+    · exact ⟨fun _ => 1, fun h1 h2 => absurd ⟨h1, h2⟩ hrc⟩
+  choose Θ hΘ using hΘ'
+  have hlam' : ∀ r, ∃ lam : Nat → ℝ, r < n → (∀ k, M.Th r (lam k)) ∧
+      (vf b (tr.perm r)).val = ∑ k ∈ Finset.range n,
+        Lfn (fun a b => (tr.mult a b).val) r k * (lam k * (vf y k).val) := by
+    intro r
+    by_cases hr : r < n
+    · obtain ⟨lam, h1, h2⟩ := hfb r hr
+      exact ⟨lam, fun _ => ⟨h1, h2⟩⟩
+    · exact ⟨fun _ => 1, fun h => absurd h hr⟩
+  choose lam hlam using hlam'
+  have hth : ∀ r k c, r < n → k < n → c < n → M.Th (2 * n - 1) (lam r k * mu k c) := by
+    intro r k c hr hk hc
+    exact (((hlam r hr).1 k).mul hu (hmu k c hk)).mono hu (by omega)
+  exact lu_compose (Lfn (fun a b => (tr.mult a b).val)) (Ufn n (valEnt m'))
+    (fun r c => (ent A (tr.perm r) c).val) (fun r => (vf b (tr.perm r)).val)
+    (fun k => (vf y k).val) (fun c => (vf x c).val) Θ lam mu (M.gq (n - 1)) (M.gq (2 * n - 1))
+    (fun r c hr hc => (hΘ r c hr hc).2)
+    (fun r hr => ((hlam r hr).2).symm)
+    (fun k hk => (hU k hk).2)
+    (fun r c k hr hc hk =>
+      (((hΘ r c hr hc).1 k).mono hu (show r ≤ n - 1 by omega)).abs_sub_one_le hu)
+    (fun r k c hr hk hc => (hth r k c hr hk hc).abs_sub_one_le hu)
+
+/-- **`solve_basic`, backward error, two-sided core**: the same run with the perturbation of the
+transformed right-hand side kept on the right: `(PA + ΔA') x̂ = Pb + Δb'` with the smaller constant
+`gq (n-1) + gq n` for the matrix and `gq (n-1)` for the right-hand side -/
+theorem solveBasic_backward_core2 (hu : M.u < 1) {n : Nat} (hn : 1 ≤ n) {A : Mat (Fl M)}
+    {b x : Array (Fl M)} (hA : WFn A n) (hb : b.size = n) {m' : Mat (Fl M)} {y : Array (Fl M)}
+    {tr : GTrace (Fl M)} (hg : gaussT A b = .ok ((m', y), tr))
+    (hbs : backsolve m' y = .ok x) :
+    ∃ (ΔA : Nat → Nat → ℝ) (Δb : Nat → ℝ),
+      (∀ r, r < n → ∑ c ∈ Finset.range n,
+        ((ent A (tr.perm r) c).val + ΔA r c) * (vf x c).val = (vf b (tr.perm r)).val + Δb r) ∧
+      (∀ r c, r < n → c < n → |ΔA r c| ≤ (M.gq (n - 1) + M.gq n) *
+        ∑ k ∈ Finset.range n,
+          |Lfn (fun a b => (tr.mult a b).val) r k| * |Ufn n (valEnt m') k c|) ∧
+      (∀ r, r < n → |Δb r| ≤ M.gq (n - 1) *
+        ∑ k ∈ Finset.range n, |Lfn (fun a b => (tr.mult a b).val) r k| * |(vf y k).val|) := by
+  obtain ⟨hwf, hsz, σ, hperm, hmult, hfa, hfb⟩ := gauss_factor_fl hu hn hA hb hg
+  obtain ⟨hxs, mu, hmu, hU⟩ := backsolve_backward_ent hu hwf hsz hn hbs
+  have hΘ' : ∀ r c, ∃ Θ : Nat → ℝ, r < n → c < n → (∀ k, M.Th r (Θ k)) ∧
+      (ent A (tr.perm r) c).val = ∑ k ∈ Finset.range n,
+        Lfn (fun a b => (tr.mult a b).val) r k * (Ufn n (valEnt m') k c * Θ k) := by
+    intro r c
+    by_cases hrc : r < n ∧ c < n
+    · obtain ⟨Θ, h1, h2⟩ := hfa r c hrc.1 hrc.2
+      exact ⟨Θ, fun _ _ => ⟨h1, h2⟩⟩
+    · exact ⟨fun _ => 1, fun h1 h2 => absurd ⟨h1, h2⟩ hrc⟩
+  choose Θ hΘ using hΘ'
+  obtain ⟨ΔA, h1, h2⟩ := lu_compose (Lfn (fun a b => (tr.mult a b).val)) (Ufn n (valEnt m'))
+    (fun r c => (ent A (tr.perm r) c).val)
+    (fun r => ∑ k ∈ Finset.range n, Lfn (fun a b => (tr.mult a b).val) r k * (1 * (vf y k).val))
+    (fun k => (vf y k).val) (fun c => (vf x c).val) Θ (fun _ _ => 1) mu (M.gq (n - 1)) (M.gq n)
+    (fun r c hr hc => (hΘ r c hr hc).2)
+    (fun r hr => rfl)
+    (fun k hk => (hU k hk).2)
+    (fun r c k hr hc hk =>
+      (((hΘ r c hr hc).1 k).mono hu (show r ≤ n - 1 by omega)).abs_sub_one_le hu)
+    (fun r k c hr hk hc => by
+      rw [one_mul]
+      exact ((hmu k c hk).mono hu (show n - k ≤ n by omega)).abs_sub_one_le hu)
+  refine ⟨ΔA, fun r => (∑ k ∈ Finset.range n,
+      Lfn (fun a b => (tr.mult a b).val) r k * (1 * (vf y k).val)) - (vf b (tr.perm r)).val,
+    ?_, h2, ?_⟩
+  · intro r hr
+    rw [h1 r hr]; ring
+  · intro r hr
+    obtain ⟨lam, hl1, hl2⟩ := hfb r hr
+    beta_reduce
+    rw [hl2, ← Finset.sum_sub_distrib, Finset.mul_sum]
+    refine (Finset.abs_sum_le_sum_abs _ _).trans (Finset.sum_le_sum ?_)
+    intro k _
+    have h3 := ((hl1 k).mono hu (show r ≤ n - 1 by omega)).abs_sub_one_le hu
+    have e2 : Lfn (fun a b => (tr.mult a b).val) r k * (1 * (vf y k).val)
+        - Lfn (fun a b => (tr.mult a b).val) r k * (lam k * (vf y k).val)
+        = Lfn (fun a b => (tr.mult a b).val) r k * (vf y k).val * (1 - lam k) := by ring
+    rw [e2, abs_mul, abs_mul, abs_sub_comm]
+    have h4 : 0 ≤ |Lfn (fun a b => (tr.mult a b).val) r k| * |(vf y k).val| := by positivity
+    nlinarith
+
+end GaussFl
 
 end Mat
 end Ohsl
